@@ -350,3 +350,25 @@ Proof.
     exfalso. apply n. unfold norm, nsq. cbn. rewrite Rmult_1_r, sqrt_1. lra.
   - cbn. lra.
 Qed.
+
+(** The dtype cases are instances of one statement.  Real input / complex output (x |-> A x with
+    complex A and real x) is X = RealC S1, Y = CplxC S2: the input conjugation is the identity,
+    the cotangent conjugation is not, and vjp(conjugate=True) is the adjoint with respect to
+    Re<.,.>, i.e. w |-> Re(J^H w).  Skipping the conjugation because the INPUT is real is wrong. *)
+Example C07_ex_vjp_real_input_complex_output :
+  forall (S1 S2 : InnerSpace) (F : @E S1 -> @E S2 * @E S2) (DF : @E S1 -> @E S1 -> @E S2 * @E S2)
+         (jax_jvp : @E S1 -> @E S1 -> (@E S2 * @E S2) * (@E S2 * @E S2)),
+    (forall u v, jax_jvp u v = (F u, DF u v)) ->
+    forall jax_vjp : @E S1 -> (@E S2 * @E S2) * (@E S2 * @E S2 -> @E S1),
+      (forall u v w, @bil (CplxC S2) (DF u v) w = @bil (RealC S1) v (snd (jax_vjp u) w)) ->
+      forall u,
+        @IsAdj S1 (ProdSpace S2 S2)
+               (fun v => snd (@op_jvp (RealC S1) (CplxC S2) jax_jvp u v))
+               (snd (@op_vjp (RealC S1) (CplxC S2) jax_vjp u true)) /\
+        (forall w, snd (@op_vjp (RealC S1) (CplxC S2) jax_vjp u true) w
+                   = snd (jax_vjp u) (cconj w)).
+Proof.
+  intros S1 S2 F DF jax_jvp Hj jax_vjp Hv u. split.
+  - exact (@op_vjp_conj_is_adjoint (RealC S1) (CplxC S2) F DF jax_jvp Hj jax_vjp Hv u).
+  - intros w. unfold op_vjp. destruct (jax_vjp u). reflexivity.
+Qed.
